@@ -61,7 +61,12 @@ _SERIAL = _it.count(1000)
 
 
 class Owner14(HasTraits):
+    #: prototyped from zholder.value and declared BEFORE the trait holding
+    #: its prototype (copying goes by declaration order)
+    aproto = PrototypedFrom("zholder", prefix="value")
     xs = List(Int)
+    #: a list that may never be empty
+    ml = List(Int, [7], minlen=1)
     nested = List(List(Int))
     dl = Dict(Str, List(Int))
     st = Set(Int)
@@ -78,6 +83,7 @@ class Owner14(HasTraits):
     uid = UUID(can_init=True)
     #: prototyped from node.value; a local override must survive copying
     pval = PrototypedFrom("node", prefix="value")
+    zholder = Instance(Node14)
     total = Property(Int, observe="xs.items")
     #: a default that is not reproducible (a fresh number per computation)
     #: and that nobody reads before the object is copied
@@ -111,7 +117,7 @@ class WithUUID(HasTraits):
 
 
 NAMES = ["xs", "nested", "dl", "st", "node", "node2", "ro", "mp", "refl",
-         "shn", "dpn", "nodes", "kd", "uid"]
+         "shn", "dpn", "nodes", "kd", "uid", "ml", "zholder"]
 
 EVENTS = [
     ("xs_assign",), ("xs_append",), ("xs_pop",),
@@ -121,7 +127,8 @@ EVENTS = [
     ("node_new",), ("node_value",), ("node_share",), ("node_tags",),
     ("tr_set",), ("ro_set",), ("mp_set",), ("refl_set",), ("shn_set",),
     ("dpn_set",), ("nodes_append",), ("nodes_share",), ("read_total",),
-    ("kd_set_new",), ("kd_set_node",), ("pval_set",),
+    ("kd_set_new",), ("kd_set_node",), ("pval_set",), ("aproto_set",),
+    ("ml_set",),
 ]
 
 
@@ -199,6 +206,12 @@ def apply(o, ev):
         o.total
     elif k == "pval_set":
         o.pval = 42
+    elif k == "aproto_set":
+        if o.zholder is None:
+            o.zholder = Node14(value=3)
+        o.aproto = 55
+    elif k == "ml_set":
+        o.ml = [1, 2]
     elif k == "kd_set_new":
         o.kd[Node14(value=8)] = 1
     elif k == "kd_set_node":
@@ -240,7 +253,8 @@ def state_of(o):
     return {n: plain(getattr(o, n)) for n in NAMES if n != "ro"} | \
         {"ro": "<unset>" if ro is Undefined else plain(ro), "mp_": o.mp_,
          "total": o.total,
-         "pval": o.pval if o.node is not None else "<no prototype>"}
+         "pval": o.pval if o.node is not None else "<no prototype>",
+         "aproto": o.aproto if o.zholder is not None else "<no prototype>"}
 
 
 def containers(o):
